@@ -419,6 +419,15 @@ def TreeF.midAt (t : TreeF E) (p : List Nat) : List Nat :=
   | .comp _ _ f _, [] => f.mid
   | .comp _ _ _ kids, k :: q => (kids k).midAt q
 
+/-- the recovery save itself can fail (the graph holds something that cannot be stored, e.g. a lock). It is made in
+`_run_finally`, on the way out with the run's own exception: unguarded (the tree before the fix) its error REPLACES that
+exception for the caller; guarded it is logged and the run's exception goes on. No file either way. -/
+def withSave (guarded saveFails : Bool) (saveErr : E) (c : Cycle E) : Cycle E :=
+  if c.recovery && saveFails then
+    { c with recovery := false,
+             ret := if guarded then c.ret else (match c.ret with | .raised _ => .raised saveErr | r => r) }
+  else c
+
 /-! ### finite presentation (driver, witnesses) -/
 
 /-- children given as an association list; everybody else is a function node -/
